@@ -114,21 +114,34 @@ def consume(f, data, gz, lazy, k, fields, n_good_before):
     """-> ('raised', exc, rows_delivered) | ('accepted', None, rows_delivered)"""
     reader = make_reader(data, f.buffer_type(), lazy, gz)
     delivered = 0
+    current = None
     try:
         if k is None:
             chunks = [reader.read()]
         else:
             chunks = reader.read_chunks(k)
         for c in chunks:
+            current = c
             if lazy:
                 c.tolist()
             rows = observe.table_rows(c, fields)
             delivered += len(rows)
+            current = None
     except observe.ObserverError:
         raise
-    except (observe.MalformedLibraryValue, observe.ColumnLengthMismatch) as e:
-        return ('raised', e, delivered)
     except Exception as e:
+        if lazy and current is not None:
+            # "never yields a table": the error is not a one-off. The same lazily read chunk, asked again after the error was
+            # caught, must not hand out the data it refused a moment ago.
+            try:
+                current.tolist()
+                again = observe.table_rows(current, fields)
+            except observe.ObserverError:
+                raise
+            except Exception:
+                again = None
+            if again is not None:
+                return ('accepted-on-second-attempt', e, delivered + len(again))
         return ('raised', e, delivered)
     return ('accepted', None, delivered)
 
@@ -179,6 +192,12 @@ def check_file(res, fmt, variants, deadline, tier='thorough', seed=0, only_viol=
                     case = dict(base_case, gz=gz, lazy=lazy, k=k)
                     if p > 0 or (k is not None and k < len(data)):
                         res.nontrivial += 1
+                    if status == 'accepted-on-second-attempt':
+                        res.outcome('ACCEPTED-ON-SECOND-ATTEMPT')
+                        res.fail('malformed-file-yields-a-table', case, dict(feats, attempt='second, after the first raised ' + exc_name(exc)),
+                                 expected='an error on every attempt', observed='%d rows delivered on the second attempt' % delivered,
+                                 note=data.decode('latin1'))
+                        continue
                     if status == 'accepted':
                         res.outcome('ACCEPTED')
                         res.fail('malformed-file-yields-a-table', case, feats, expected='an error', observed='%d rows delivered' % delivered,
